@@ -48,3 +48,75 @@ func VerifBindTimeoutRoutes(globalMs int64, routeTimeouts []time.Duration, hs []
 	}
 	return rt, nil
 }
+
+// VerifBindChain builds an engine from the given configuration (the harness chooses which native
+// middlewares are on), registers the user middlewares through the real engine.use, adds ONE route group
+// holding GET <path> for every path (per-route timeout routeTimeout through the real WithTimeout option
+// when > 0), binds it through the real bindRoutes (buildChainWithNativeMiddlewares, appendAuthHandler,
+// convertMiddleware) onto a real router and returns the router. Construct only.
+func VerifBindChain(c RestConf, routeTimeout time.Duration, paths []string, h http.HandlerFunc, mws ...Middleware) (http.Handler, error) {
+	ng := newEngine(c)
+	for _, mw := range mws {
+		ng.use(mw)
+	}
+	fr := featuredRoutes{}
+	for _, p := range paths {
+		fr.routes = append(fr.routes, Route{Method: http.MethodGet, Path: p, Handler: h})
+	}
+	if routeTimeout > 0 {
+		WithTimeout(routeTimeout)(&fr)
+	}
+	ng.addRoutes(fr)
+	rt := router.NewRouter()
+	if err := ng.bindRoutes(rt); err != nil {
+		return nil, err
+	}
+	return rt, nil
+}
+
+// VerifGroup is one route group of VerifStartServer: GET Path, registered with WithTimeout(Timeout)
+// when Timeout > 0 and with WithSSE() when SSE.
+type VerifGroup struct {
+	Path    string
+	Timeout time.Duration
+	SSE     bool
+	Handler http.HandlerFunc
+}
+
+type verifAbortStart struct{}
+
+// VerifStartServer assembles a Server the way NewServer does (minus RestConf.SetUp: no logging,
+// metrics or tracing set-up), registers the groups IN THE GIVEN ORDER through the public
+// Server.AddRoutes with the public RouteOptions, and then runs the real engine.start (bindRoutes,
+// withTimeout, user options last) with one extra StartOption appended as the last user option: it
+// captures the *http.Server that internal.start has configured and aborts start with a private panic
+// before anything listens. The returned server is therefore exactly the value engine.start would
+// have served with (Handler = the bound router, Read/WriteTimeout as derived by the engine).
+func VerifStartServer(c RestConf, groups []VerifGroup) (svr *http.Server, err error) {
+	s := &Server{
+		ngin:   newEngine(c),
+		router: router.NewRouter(),
+	}
+	for _, g := range groups {
+		var opts []RouteOption
+		if g.Timeout > 0 {
+			opts = append(opts, WithTimeout(g.Timeout))
+		}
+		if g.SSE {
+			opts = append(opts, WithSSE())
+		}
+		s.AddRoutes([]Route{{Method: http.MethodGet, Path: g.Path, Handler: g.Handler}}, opts...)
+	}
+	defer func() {
+		if p := recover(); p != nil {
+			if _, ok := p.(verifAbortStart); !ok {
+				panic(p)
+			}
+		}
+	}()
+	err = s.ngin.start(s.router, func(sv *http.Server) {
+		svr = sv
+		panic(verifAbortStart{})
+	})
+	return
+}
